@@ -8,6 +8,7 @@ Local Open Scope nat_scope.
 
 Section MCTS.
   Variable A : nat.
+  Variable gA : nat -> nat.           (* variable action space; the lemmas that mention gA hold for any *)
   Variable term : nat -> bool.
   Variable disc : Q.
   Variable rl : nat -> nat -> nat.
@@ -15,7 +16,7 @@ Section MCTS.
 
   Lemma mcts_simulate_good : forall fuel h d sn s tr sn' ret tr' st,
     trace_ok A tr -> tree_all (good A) sn -> length (acts sn) = A ->
-    mcts_simulate A term disc rl fuel h d sn s tr = (sn', ret, tr', st) ->
+    mcts_simulate (fun _ => A) term disc rl fuel h d sn s tr = (sn', ret, tr', st) ->
     tree_all (good A) sn' /\ length (acts sn') = A /\ trace_ok A tr'.
   Proof.
     induction fuel as [|fuel IH]; intros h d sn s tr sn' ret tr' st Htr Hg Hlen H; cbn [mcts_simulate] in H.
@@ -24,7 +25,7 @@ Section MCTS.
       destruct (next_trace_ok _ _ _ _ HA Htr En) as [Hea Htr1].
       destruct ((d + 1 <? h) && negb (term (es1 e))) eqn:Eif.
       + destruct (find_kid (es1 e) (kids (nth (ea e) (acts sn) act0))) as [c|] eqn:Ef.
-        * destruct (mcts_simulate A term disc rl fuel h (d + 1) (allocate A c) (es1 e) tr1) as [[[c' fr] tr2] st0] eqn:Er.
+        * destruct (mcts_simulate (fun _ => A) term disc rl fuel h (d + 1) (allocate A c) (es1 e) tr1) as [[[c' fr] tr2] st0] eqn:Er.
           inversion H; subst sn' ret tr' st; clear H.
           assert (Hc : tree_all (good A) c).
           { eapply old_kid_good; [exact Hg | rewrite Hlen; exact Hea | apply find_kid_In; exact Ef]. }
@@ -47,7 +48,7 @@ Section MCTS.
   (* --- horizon: a simulation entered at depth d makes at most h - d model calls --- *)
   Lemma mcts_simulate_steps : forall fuel h d sn s tr sn' ret tr' st,
     (forall h d, rl h d <= h - d - 1) -> d < h ->
-    mcts_simulate A term disc rl fuel h d sn s tr = (sn', ret, tr', st) -> st <= h - d.
+    mcts_simulate gA term disc rl fuel h d sn s tr = (sn', ret, tr', st) -> st <= h - d.
   Proof.
     clear HA.
     induction fuel as [|fuel IH]; intros h d sn s tr sn' ret tr' st Hrl Hd H; cbn [mcts_simulate] in H.
@@ -56,7 +57,7 @@ Section MCTS.
       destruct ((d + 1 <? h) && negb (term (es1 e))) eqn:Eif.
       + apply andb_prop in Eif. destruct Eif as [Elt _]. apply Nat.ltb_lt in Elt.
         destruct (find_kid (es1 e) (kids (nth (ea e) (acts sn) act0))) as [c|] eqn:Ef.
-        * destruct (mcts_simulate A term disc rl fuel h (d + 1) (allocate A c) (es1 e) tr1) as [[[c' fr] tr2] st0] eqn:Er.
+        * destruct (mcts_simulate gA term disc rl fuel h (d + 1) (allocate (gA (es1 e)) c) (es1 e) tr1) as [[[c' fr] tr2] st0] eqn:Er.
           inversion H; subst st. apply IH in Er; auto. lia.
         * destruct (rollout term disc (rl h d) (es1 e) 1 0 tr1) as [[fr tr2] st0] eqn:Er.
           inversion H; subst st. apply rollout_steps_le in Er. specialize (Hrl h d). lia.
@@ -65,7 +66,7 @@ Section MCTS.
 
   (* --- the value returned (and recorded) is the discounted sum of the rewards sampled --- *)
   Lemma mcts_simulate_return : forall fuel h d sn s tr sn' ret tr' st,
-    mcts_simulate A term disc rl fuel h d sn s tr = (sn', ret, tr', st) -> st <= length tr ->
+    mcts_simulate gA term disc rl fuel h d sn s tr = (sn', ret, tr', st) -> st <= length tr ->
     (ret == disc_sum disc (map er (firstn st tr)))%Q /\ tr' = skipn st tr.
   Proof.
     clear HA.
@@ -76,7 +77,7 @@ Section MCTS.
         cbn [next] in H.
         destruct ((d + 1 <? h) && negb (term (es1 ev0))).
         - destruct (find_kid (es1 ev0) (kids (nth (ea ev0) (acts sn) act0))).
-          + destruct (mcts_simulate A term disc rl fuel h (d + 1) (allocate A n) (es1 ev0) []) as [[[c' fr] tr2] st0].
+          + destruct (mcts_simulate gA term disc rl fuel h (d + 1) (allocate (gA (es1 ev0)) n) (es1 ev0) []) as [[[c' fr] tr2] st0].
             inversion H; subst st. cbn [length] in Hst; lia.
           + destruct (rollout term disc (rl h d) (es1 ev0) 1 0 []) as [[fr tr2] st0].
             inversion H; subst st. cbn [length] in Hst; lia.
@@ -84,7 +85,7 @@ Section MCTS.
       cbn [next] in H. cbn [length] in Hst.
       destruct ((d + 1 <? h) && negb (term (es1 e))) eqn:Eif.
       + destruct (find_kid (es1 e) (kids (nth (ea e) (acts sn) act0))) as [c|] eqn:Ef.
-        * destruct (mcts_simulate A term disc rl fuel h (d + 1) (allocate A c) (es1 e) tr1) as [[[c' fr] tr2] st0] eqn:Er.
+        * destruct (mcts_simulate gA term disc rl fuel h (d + 1) (allocate (gA (es1 e)) c) (es1 e) tr1) as [[[c' fr] tr2] st0] eqn:Er.
           inversion H; subst ret tr' st; clear H.
           destruct (IH _ _ _ _ _ _ _ _ _ Er ltac:(lia)) as [Hr Ht].
           cbn [firstn map disc_sum skipn]. split; [|exact Ht].
@@ -100,7 +101,7 @@ Section MCTS.
 
   (* the return is appended to the ghost list of the chosen action, whose N grows by one *)
   Lemma mcts_simulate_records : forall fuel h d sn s tr sn' ret tr' st,
-    mcts_simulate A term disc rl (S fuel) h d sn s tr = (sn', ret, tr', st) ->
+    mcts_simulate gA term disc rl (S fuel) h d sn s tr = (sn', ret, tr', st) ->
     let a := ea (fst (next tr)) in
     a < length (acts sn) ->
     nN sn' = S (nN sn) /\
@@ -112,7 +113,7 @@ Section MCTS.
     destruct (next tr) as [e tr1] eqn:En. cbn [fst] in *.
     destruct ((d + 1 <? h) && negb (term (es1 e))).
     - destruct (find_kid (es1 e) (kids (nth (ea e) (acts sn) act0))) as [c|].
-      + destruct (mcts_simulate A term disc rl fuel h (d + 1) (allocate A c) (es1 e) tr1) as [[[c' fr] tr2] st0].
+      + destruct (mcts_simulate gA term disc rl fuel h (d + 1) (allocate (gA (es1 e)) c) (es1 e) tr1) as [[[c' fr] tr2] st0].
         inversion H; subst sn' ret tr' st; clear H. cbn [nN acts].
         rewrite (nth_upd_same _ _ act0) by exact Ha. cbn [act_update rets aN]. auto.
       + destruct (rollout term disc (rl h d) (es1 e) 1 0 tr1) as [[fr tr2] st0].
@@ -125,7 +126,7 @@ Section MCTS.
   (* --- the fuel is never exhausted: any fuel >= h - d gives the same run --- *)
   Lemma mcts_fuel_irrelevant : forall f1 f2 h d sn s tr,
     d < h -> h - d <= f1 -> h - d <= f2 ->
-    mcts_simulate A term disc rl f1 h d sn s tr = mcts_simulate A term disc rl f2 h d sn s tr.
+    mcts_simulate gA term disc rl f1 h d sn s tr = mcts_simulate gA term disc rl f2 h d sn s tr.
   Proof.
     clear HA.
     induction f1 as [|f1 IH]; intros f2 h d sn s tr Hd H1 H2; [lia|].
@@ -140,13 +141,13 @@ Section MCTS.
   (* --- the simulation loop --- *)
   Lemma mcts_loop_good : forall iters h g s tr g' tr' sts,
     0 < h -> trace_ok A tr -> tree_all (good A) g -> length (acts g) = A ->
-    mcts_loop A term disc rl iters h g s tr = (g', tr', sts) ->
+    mcts_loop (fun _ => A) term disc rl iters h g s tr = (g', tr', sts) ->
     tree_all (good A) g' /\ length (acts g') = A /\ trace_ok A tr'.
   Proof.
     induction iters as [|i IH]; intros h g s tr g' tr' sts Hh Htr Hg Hlen H; cbn [mcts_loop] in H.
     - inversion H; subst g' tr' sts; auto.
-    - destruct (mcts_simulate A term disc rl h h 0 g s tr) as [[[g1 r1] tr1] st1] eqn:E1.
-      destruct (mcts_loop A term disc rl i h g1 s tr1) as [[g2 tr2] sts2] eqn:E2.
+    - destruct (mcts_simulate (fun _ => A) term disc rl h h 0 g s tr) as [[[g1 r1] tr1] st1] eqn:E1.
+      destruct (mcts_loop (fun _ => A) term disc rl i h g1 s tr1) as [[g2 tr2] sts2] eqn:E2.
       inversion H; subst g' tr' sts; clear H.
       destruct (mcts_simulate_good _ _ _ _ _ _ _ _ _ _ Htr Hg Hlen E1) as [Hg1 [Hl1 Ht1]].
       eapply IH; eauto.
@@ -154,14 +155,14 @@ Section MCTS.
 
   Lemma mcts_loop_steps : forall iters h g s tr g' tr' sts,
     (forall h d, rl h d <= h - d - 1) -> 0 < h ->
-    mcts_loop A term disc rl iters h g s tr = (g', tr', sts) ->
+    mcts_loop gA term disc rl iters h g s tr = (g', tr', sts) ->
     Forall (fun st => st <= h) sts /\ length sts = iters.
   Proof.
     clear HA.
     induction iters as [|i IH]; intros h g s tr g' tr' sts Hrl Hh H; cbn [mcts_loop] in H.
     - inversion H; subst; split; [constructor|reflexivity].
-    - destruct (mcts_simulate A term disc rl h h 0 g s tr) as [[[g1 r1] tr1] st1] eqn:E1.
-      destruct (mcts_loop A term disc rl i h g1 s tr1) as [[g2 tr2] sts2] eqn:E2.
+    - destruct (mcts_simulate gA term disc rl h h 0 g s tr) as [[[g1 r1] tr1] st1] eqn:E1.
+      destruct (mcts_loop gA term disc rl i h g1 s tr1) as [[g2 tr2] sts2] eqn:E2.
       inversion H; subst g' tr' sts; clear H.
       apply mcts_simulate_steps in E1; auto. destruct (IH _ _ _ _ _ _ _ Hrl Hh E2) as [F L].
       split; [constructor; [lia|exact F] | cbn [length]; lia].
@@ -170,14 +171,14 @@ Section MCTS.
   (* --- runSimulation / sampleAction --- *)
   Lemma mcts_run_good : forall iters h g s tr g' a tr' sts,
     trace_ok A tr -> tree_all (good A) g -> length (acts g) = A ->
-    mcts_runSimulation A term disc rl iters h g s tr = (g', a, tr', sts) ->
+    mcts_runSimulation (fun _ => A) term disc rl iters h g s tr = (g', a, tr', sts) ->
     tree_all (good A) g' /\ length (acts g') = A /\ a < A.
   Proof.
     intros iters h g s tr g' a tr' sts Htr Hg Hlen H. unfold mcts_runSimulation in H.
     destruct (Nat.eqb h 0) eqn:Eh.
     - inversion H; subst g' a tr' sts. auto.
     - apply Nat.eqb_neq in Eh.
-      destruct (mcts_loop A term disc rl iters h g s tr) as [[g2 tr2] sts2] eqn:E2.
+      destruct (mcts_loop (fun _ => A) term disc rl iters h g s tr) as [[g2 tr2] sts2] eqn:E2.
       inversion H; subst g' a tr' sts; clear H.
       assert (Hh : 0 < h) by lia.
       destruct (mcts_loop_good _ _ _ _ _ _ _ _ Hh Htr Hg Hlen E2) as [Hg2 [Hl2 _]].
@@ -187,7 +188,7 @@ Section MCTS.
 
   Lemma mcts_run_steps : forall iters h g s tr g' a tr' sts,
     (forall h d, rl h d <= h - d - 1) ->
-    mcts_runSimulation A term disc rl iters h g s tr = (g', a, tr', sts) ->
+    mcts_runSimulation gA term disc rl iters h g s tr = (g', a, tr', sts) ->
     Forall (fun st => st <= h) sts.
   Proof.
     clear HA.
@@ -195,18 +196,18 @@ Section MCTS.
     destruct (Nat.eqb h 0) eqn:Eh.
     - inversion H; constructor.
     - apply Nat.eqb_neq in Eh.
-      destruct (mcts_loop A term disc rl iters h g s tr) as [[g2 tr2] sts2] eqn:E2.
+      destruct (mcts_loop gA term disc rl iters h g s tr) as [[g2 tr2] sts2] eqn:E2.
       inversion H; subst g' a tr' sts; clear H.
       eapply mcts_loop_steps; eauto. lia.
   Qed.
 
   Lemma mcts_op_good : forall iters g op tr g' a tr' sts,
     trace_ok A tr -> tree_all (good A) g ->
-    mcts_op A term disc rl iters g op tr = (g', a, tr', sts) ->
+    mcts_op (fun _ => A) term disc rl iters g op tr = (g', a, tr', sts) ->
     tree_all (good A) g' /\ length (acts g') = A /\ a < A.
   Proof.
     intros iters g op tr g' a tr' sts Htr Hg H.
-    assert (Hfresh : forall s h, mcts_fresh A term disc rl iters s h tr = (g', a, tr', sts) ->
+    assert (Hfresh : forall s h, mcts_fresh (fun _ => A) term disc rl iters s h tr = (g', a, tr', sts) ->
                                  tree_all (good A) g' /\ length (acts g') = A /\ a < A).
     { intros s h E. unfold mcts_fresh in E.
       destruct (allocate_good A node0 (good_node0 A)) as [G L].
@@ -227,7 +228,7 @@ Section MCTS.
 
   Lemma mcts_op_steps : forall iters g op tr g' a tr' sts,
     (forall h d, rl h d <= h - d - 1) ->
-    mcts_op A term disc rl iters g op tr = (g', a, tr', sts) ->
+    mcts_op gA term disc rl iters g op tr = (g', a, tr', sts) ->
     Forall (fun st => st <= match op with MFresh _ h => h | MAdvance _ _ h => h end) sts.
   Proof.
     clear HA.
@@ -240,11 +241,11 @@ Section MCTS.
 
   Lemma mcts_session_good : forall iters ops g,
     tree_all (good A) g -> Forall (fun p => trace_ok A (snd p)) ops ->
-    tree_all (good A) (mcts_session A term disc rl iters g ops).
+    tree_all (good A) (mcts_session (fun _ => A) term disc rl iters g ops).
   Proof.
     induction ops as [|[op tr] t IH]; intros g Hg Hops; cbn [mcts_session]; [exact Hg|].
     inversion Hops as [|? ? Hp Ht]; subst. cbn [snd] in Hp.
-    destruct (mcts_op A term disc rl iters g op tr) as [[[g1 a1] tr1] sts1] eqn:E.
+    destruct (mcts_op (fun _ => A) term disc rl iters g op tr) as [[[g1 a1] tr1] sts1] eqn:E.
     apply IH; [|exact Ht].
     eapply mcts_op_good in E; eauto. tauto.
   Qed.
